@@ -302,16 +302,22 @@ def gen_spec(ctx, sh, depth=0):
         stages = []
         for _ in range(rng.randint(0, 2)):
             r = rng.random()
-            if r < 0.3:
+            if r < 0.25:
                 stages.append(['map', leaf(ctx, elem)[0]])
+            elif r < 0.32 and not stages:
+                stages.append(['unique', None])
             elif r < 0.5:
                 stages.append(['limit', rng.randint(1, 3)])
             elif r < 0.7:
                 stages.append(['chunked', rng.randint(1, 3)])
             elif r < 0.85:
                 stages.append(['filter', ['probe', ctx.new_pid(), 'true']] if ctx.probes else ['filter', None])
-            else:
+            elif r < 0.9:
                 stages.append(['windowed', 2])
+            elif r < 0.95:
+                stages.append(['unique', None])
+            else:
+                stages.append([rng.choice(['takewhile', 'dropwhile']), ['fn', 'truthy']])
         term = rng.choice([['all'], ['all'], ['first'], None])
         spec = ['Iter', sub, None, stages, term]
         if term is None:
